@@ -157,11 +157,9 @@ Definition oracle_mx_all (s s' : smx) (o : line) (r : list bytes) : list bytes :
           check (existsb (fun pt => existsb (fun o' => beqb (fst o') (fst pt)) (resolve (hic s) [pt] host)) lt)
                 "C14:accepted-host-matches-no-registered-domain"
         else
-          (* known finding F28: the lookup's backtracking deletes a parameter that was there BEFORE the lookup when a
-             domain parameter has the same name; any other change of the parameters by a rejection is a violation *)
+          (* F28 (repaired): the lookup's backtracking used to delete a parameter that was there BEFORE the lookup when a
+             domain parameter has the same name; any change of the parameters by a rejection is a violation *)
           if params_eqb got ps0 then []
-          else if params_eqb got (without_domain_params ps0) && negb (params_eqb ps0 (without_domain_params ps0))
-          then [bs "known:hosts-lookup-deleted-same-named-parameter"]
           else [bs "C14:rejection-left-parameters"]) ++
        (* exact resolution while domains were only added, and on simple witnesses afterwards *)
        let wargs := snd (take_list (skipn 2 a)) in
@@ -184,9 +182,6 @@ Definition oracle_mx_all (s s' : smx) (o : line) (r : list bytes) : list bytes :
        (if haddonly s || simple then
           if (if accepted then existsb (fun o' => params_eqb (expect_ps o') got) outs
               else match outs with [] => true | _ => false end) then []
-          else if accepted && negb (params_eqb ps0 (without_domain_params ps0)) &&
-                  existsb (fun o' => params_eqb (fold_left (fun acc kv => ctx_set acc (fst kv) (snd kv)) (snd o') (without_domain_params ps0)) got) outs
-          then [bs "known:hosts-lookup-deleted-same-named-parameter"]
           else [bs "C14:host-resolution-differs-from-documented-procedure"]
         else [])
      end)
@@ -195,8 +190,7 @@ Definition oracle_mx_all (s s' : smx) (o : line) (r : list bytes) : list bytes :
   else [].
 
 Definition oracle_mx (s s' : smx) (o : line) (r : list bytes) : list bytes :=
-  filter (fun c => has_prefix c (mpid s) || beqb (mpid s) (bs "MX") ||
-                   (has_prefix c (bs "known:hosts-lookup") && beqb (mpid s) (bs "C14"))) (oracle_mx_all s s' o r).
+  filter (fun c => has_prefix c (mpid s) || beqb (mpid s) (bs "MX")) (oracle_mx_all s s' o r).
 
 Definition absorb_mx (s : smx) (o : line) (r : list bytes) : smx :=
   let op := arg 0 o in
